@@ -114,17 +114,25 @@ Definition C01_full_statement' : Prop :=
     pnew t = Done doc0 -> valid_hist t h -> phist doc0 h = Done doc' ->
     pnew (final_text t h) = Done doc'.
 
+(* stated with abstract texts so that no closed term is ever reduced by the kernel's lazy machine *)
+Lemma refute_general a d b ins d0 d1 :
+  pnew (a ++ d ++ b) = Done d0 -> pstep d0 a d b ins = Done d1 ->
+  parse (p_toks d1) <> Done (p_tree d1) -> ~ C01_full_statement'.
+Proof.
+  intros H0 H1 Hne F.
+  set (h := [ {| c_a := a; c_d := d; c_b := b; c_ins := ins |} ]).
+  assert (Hv : valid_hist (a ++ d ++ b) h) by (cbn [valid_hist h c_a c_d c_b]; auto).
+  assert (Hp : phist d0 h = Done d1) by (cbn [phist h c_a c_d c_b c_ins]; rewrite H1; reflexivity).
+  specialize (F (a ++ d ++ b) h d0 d1 H0 Hv Hp).
+  destruct (hist_from_new _ _ _ _ H0 Hv Hp) as [_ B].
+  cbn [final_text h c_a c_b c_ins] in F, B.
+  unfold pnew in F. rewrite B in F.
+  destruct (parse (p_toks d1)) as [p| |] eqn:E; [| discriminate F | discriminate F].
+  injection F as F. apply Hne. rewrite <- F. reflexivity.
+Qed.
+
 Theorem full_statement_refuted : ~ C01_full_statement'.
 Proof.
-  intros F. destruct tree_refuted as (d0 & d1 & H0 & H1 & Hne).
-  specialize (F (w_a ++ [] ++ w_b) [ {| c_a := w_a; c_d := []; c_b := w_b; c_ins := w_ins |} ] d0 d1 H0).
-  assert (Hv : valid_hist (w_a ++ [] ++ w_b) [ {| c_a := w_a; c_d := []; c_b := w_b; c_ins := w_ins |} ])
-    by (cbn; auto).
-  assert (Hp : phist d0 [ {| c_a := w_a; c_d := []; c_b := w_b; c_ins := w_ins |} ] = Done d1)
-    by (cbn [phist c_a c_d c_b c_ins]; rewrite H1; reflexivity).
-  specialize (F Hv Hp). cbn [final_text c_a c_b c_ins] in F.
-  unfold pnew in F.
-  destruct (hist_from_new _ _ _ _ H0 Hv Hp) as [_ B]. cbn [final_text c_a c_b c_ins] in B.
-  rewrite B in F. destruct (parse (p_toks d1)) as [p| |] eqn:E; try discriminate.
-  injection F as F. apply Hne. rewrite <- F. reflexivity.
+  destruct tree_refuted as (d0 & d1 & H0 & H1 & Hne).
+  exact (refute_general w_a [] w_b w_ins d0 d1 H0 H1 Hne).
 Qed.
